@@ -10,9 +10,10 @@ CLAIMS = {
    text=("Per-element contracts on the real force routines (arbitrary iteration of the per-face loops): pressure gives each node of a used face "
          "p*cr/6 and nothing else; tension/elasticity gives force_i = -gamma_eff dA/dx_i (stated division-free against the cached normal, whose "
          "meaning is the face-cache invariant), zero net force and torque per face; angle gradients sum to zero; prologue of the tension "
-         "routine; gradient lemmas for area and volume. Bending and the angle-regularisation force are named as not yet covered; whole-cell "
-         "zero net pressure force rests on the quoted closed-surface lemma."),
-   design='6 C02', technique='contract-based deductive verification: loop-body contracts on the clang AST + SMT and exact ideal-membership (sympy Groebner) for polynomial identities',
+         "routine; gradient lemmas for area and volume. Bending and the angle-regularisation forces are NOT under a deductive contract: their "
+         "zero net force / torque clause is run natively on the real routines for a fixed list of closed meshes and reported as a BOUNDED "
+         "check (never counted as proved); whole-cell zero net pressure force rests on the quoted closed-surface lemma."),
+   design='6 C02', technique='contract-based deductive verification: loop-body contracts on the clang AST + SMT and exact ideal-membership (sympy Groebner) for polynomial identities; bounded native stand-in for the bending / angle force sums, labelled bounded',
    note=NOTE_COMMON + " sympy 1.14 polynomial arithmetic is an additional trusted back end for equalities."),
  'C03': dict(
    text=("Contracts on the real time_integration_scheme::update_nodes_positions in four compile-time configurations (contact model 0/1 x dynamic "
